@@ -204,6 +204,25 @@ func (c *Collector) Flush() {
 	}
 }
 
+// Heartbeat records the scenario about to run in $VERIF_HEARTBEAT, so that the
+// driver's wall-clock watchdog can attribute a worker that stops making
+// progress (a goroutine spinning inside code the scheduler cannot interrupt) to
+// the scenario that caused it.
+func Heartbeat(scenario any) {
+	p := os.Getenv("VERIF_HEARTBEAT")
+	if p == "" {
+		return
+	}
+	b, err := json.Marshal(scenario)
+	if err != nil {
+		return
+	}
+	tmp := p + ".tmp"
+	if os.WriteFile(tmp, b, 0o644) == nil {
+		os.Rename(tmp, p)
+	}
+}
+
 // Explore runs the rapid-driven exploration of one scenario type, or replays
 // $VERIF_REPLAY. gen draws a scenario; run executes it. The first violated
 // (property, oracle) pins what shrinking is allowed to preserve.
@@ -237,6 +256,7 @@ func Explore[S any](t *testing.T, c *Collector, property string, gen func(*rapid
 			c.HarnessError("cannot parse replay scenario: " + err.Error())
 			return
 		}
+		Heartbeat(s)
 		ri := run(s)
 		c.Add(ri)
 		if v := pick(ri); v != nil {
@@ -255,6 +275,7 @@ func Explore[S any](t *testing.T, c *Collector, property string, gen func(*rapid
 	ok := t.Run("explore", func(t *testing.T) {
 		rapid.Check(t, func(rt *rapid.T) {
 			s := gen(rt)
+			Heartbeat(s)
 			ri := run(s)
 			c.Add(ri)
 			v := pick(ri)
@@ -282,6 +303,7 @@ func Explore[S any](t *testing.T, c *Collector, property string, gen func(*rapid
 
 // Single runs one explicitly constructed scenario (fault enumeration) and records a failure if any.
 func Single[S any](c *Collector, property string, s S, run func(S) *RunInfo) *Violation {
+	Heartbeat(s)
 	ri := run(s)
 	c.Add(ri)
 	for _, v := range ri.Violations {
